@@ -906,6 +906,49 @@ pub fn c16_concat_2x2() {
     kani::cover!(A.rowval[0] == 1 && B.rowval[2] == 1, "nontrivial patterns");
 }
 
+/// non-square blocks: row and column offsets of blockdiag / hcat / vcat must advance independently
+#[kani::proof]
+#[kani::unwind(8)]
+pub fn c16_concat_nonsquare() {
+    let A = any_csc_fp::<3, 1, 2>(false); // tall
+    let B = any_csc_fp::<1, 2, 2>(false); // wide
+    let C = any_csc_fp::<2, 1, 1>(false);
+    let da = dense_fp::<3, 1>(&A);
+    let db = dense_fp::<1, 2>(&B);
+    let dc = dense_fp::<2, 1>(&C);
+    let D = CscMatrix::blockdiag(&[&A, &B, &C]).unwrap();
+    assert!(D.m == 6 && D.n == 4 && is_canonical(&D), "blockdiag_shape_canonical");
+    let dd = dense_fp::<6, 4>(&D);
+    let mut i = 0;
+    while i < 6 {
+        let mut j = 0;
+        while j < 4 {
+            let want = if i < 3 && j < 1 {
+                da[i][j]
+            } else if i >= 3 && i < 4 && j >= 1 && j < 3 {
+                db[i - 3][j - 1]
+            } else if i >= 4 && j >= 3 {
+                dc[i - 4][j - 3]
+            } else {
+                F::zero()
+            };
+            assert!(dd[i][j] == want, "blockdiag_places_each_block_at_its_row_and_column_offset");
+            j += 1;
+        }
+        i += 1;
+    }
+    // vcat of a tall and a short block with the same number of columns
+    let V = CscMatrix::vcat(&A, &C).unwrap();
+    assert!(V.m == 5 && V.n == 1 && is_canonical(&V), "vcat_shape_canonical");
+    let dv = dense_fp::<5, 1>(&V);
+    let mut i = 0;
+    while i < 5 {
+        assert!(dv[i][0] == if i < 3 { da[i][0] } else { dc[i - 3][0] }, "vcat_block_layout");
+        i += 1;
+    }
+    kani::cover!(A.rowval[0] == 1 && B.rowval[1] == 0 && C.rowval[0] == 1, "nontrivial patterns");
+}
+
 #[kani::proof]
 #[kani::unwind(8)]
 pub fn c16_concat_dim_errors() {
